@@ -20,3 +20,23 @@ W long w_parse_double(const char* s, double* val) { const char* p = s; *val = mp
 W int w_parse_option_string(mp::BasicSolver* self, const char* s, unsigned flags) {
   try { self->ParseOptionString(s, flags); return 0; } catch (...) { return 1; }
 }
+// ---- wildcard option names ("acc:*", "alg:*:x"): SolverOption::wc_match on an object image whose wildcard table is filled directly
+// (the constructor parses the name list with std::istringstream, which is libstdc++ binary code)
+template<class Tag, typename Tag::type M> struct Rob { friend typename Tag::type get(Tag) { return M; } };
+typedef std::pair<std::string, std::string> HT;
+struct THt { typedef std::vector<HT> mp::SolverOption::*type; friend type get(THt); }; template struct Rob<THt, &mp::SolverOption::wc_headtails_>;
+struct TKl { typedef std::string mp::SolverOption::*type; friend type get(TKl); }; template struct Rob<TKl, &mp::SolverOption::wc_key_last_>;
+struct TBl { typedef std::string mp::SolverOption::*type; friend type get(TBl); }; template struct Rob<TBl, &mp::SolverOption::wc_body_last_>;
+W int w_wc_match(const char* h0, const char* t0, const char* h1, const char* t1, const char* key, unsigned long keylen, char* body, unsigned long cap, unsigned long* bodylen) {
+  try {
+    alignas(16) char storage[sizeof(mp::SolverOption)]; for (unsigned long i = 0; i < sizeof storage; ++i) storage[i] = 0;
+    mp::SolverOption& o = *reinterpret_cast<mp::SolverOption*>(storage);
+    new (&(o.*get(THt()))) std::vector<HT>(); new (&(o.*get(TKl()))) std::string(); new (&(o.*get(TBl()))) std::string();
+    (o.*get(THt())).push_back(HT(h0, t0)); if (h1) (o.*get(THt())).push_back(HT(h1, t1));
+    std::string k(key, keylen);
+    bool m = o.wc_match(k);
+    const std::string& b = o.wc_keybody_last(); *bodylen = b.size();
+    for (unsigned long i = 0; i < b.size() && i < cap; ++i) body[i] = b[i];
+    return m;
+  } catch (...) { return -1; }
+}
